@@ -158,7 +158,7 @@ fn hiccup_check(case: &Case, payload: &[u8], wire: &[u8], events: Vec<Ev>, ctx: 
 impl Property for C01 {
     type Case = Case;
     const ID: &'static str = "C01";
-    const RULE: &'static str = "proptest-generated (payload class x framing {length, chunked(plan), close} x header letter case x trailing bytes x \
+    const RULE: &'static str = "proptest-generated (payload class x framing {length, chunked(plan), close} x header letter case x status {200, 201, 206, 226, 404, 500, 599 and the never-followed 300/305, redirect following left on} x trailing bytes x transient transport errors x \
 segmentation x caller read plan), run through send() on a scripted transport; non-trivial = payload non-empty and at least two of \
 {>=2 transport segments, >=2 chunks, >=2 caller reads}; distinct by hash of the serialised case";
 
